@@ -23,6 +23,13 @@ def parseConn (s : String) : Option (Nat × Nat × Nat) :=
   | [a, t, n] => do pure (← a.toNat?, ← t.toNat?, ← n.toNat?)
   | _ => none
 
+/-- `a@t@n` or `a@t@n@0` (`@0`: every request of the connection declares a body that never comes) -/
+def parseConnB (s : String) : Option (Nat × Nat × Nat × Bool) :=
+  match s.splitOn "@" with
+  | [a, t, n] => do pure (← a.toNat?, ← t.toNat?, ← n.toNat?, true)
+  | [a, t, n, b] => do pure (← a.toNat?, ← t.toNat?, ← n.toNat?, b != "0")
+  | _ => none
+
 def roStr : ReqOutcome → String
   | .ok => "200" | .tooMany => "429" | .closed => "X"
 
@@ -34,8 +41,8 @@ def handle : List String → Option String
     pure (String.join ((run cfg {} es).2.map actStr))
   | ["serve", m, c, r, conns] => do
     let cfg ← parseCfg m c r
-    let cs ← (← parseList conns).mapM parseConn
-    let (outs, alive) := serve cfg {} cs
+    let cs ← (← parseList conns).mapM parseConnB
+    let (outs, alive) := serveB cfg {} cs
     pure s!"alive={boolStr alive} {listStr (outs.map fun o => "/".intercalate (o.map roStr))}"
   -- hosts <m/c/r;m/c/r;…> [a@t@host@n,…]
   | ["hosts", cfgs, conns] => do
